@@ -414,6 +414,10 @@ var charClasses = []charClass{
 	{"HEXUP", rng('A', 'F')},
 	{"WS", func(v int64) bool { return v == '\t' || v == '\n' || v == '\r' || v == ' ' }},
 	{"NOT_WS", func(v int64) bool { return !(v == '\t' || v == '\n' || v == '\r' || v == ' ') }},
+	// RFC 8259 string = quotation-mark *char quotation-mark; unescaped = %x20-21 / %x23-5B / %x5D-10FFFF: the characters
+	// of a JSON string that stand for themselves, and the ones that need an escape (control characters, quote, backslash)
+	{"JSON_UNESCAPED", func(v int64) bool { return v >= 0x20 && v != '"' && v != '\\' }},
+	{"JSON_ESCAPED", func(v int64) bool { return v < 0x20 || v == '"' || v == '\\' }},
 }
 
 // classify decides which grammar class a comparison-only predicate accepts. Because the predicate
@@ -426,7 +430,7 @@ func classify(consts []int64, eval func(int64) bool) string {
 	}
 	for _, cl := range charClasses {
 		// breakpoints of the class itself must be included for exactness
-		for _, b := range []int64{'0', '9', 'A', 'Z', 'a', 'z', '_', 'f', 'F', '\t', '\n', '\r', ' '} {
+		for _, b := range []int64{'0', '9', 'A', 'Z', 'a', 'z', '_', 'f', 'F', '\t', '\n', '\r', ' ', 0x1f, '"', '\\'} {
 			pts[b-1], pts[b], pts[b+1] = true, true, true
 		}
 		same := true
